@@ -17,14 +17,18 @@ META = dict(
     bounds=dict(
         quick="files produced by independent layout-table writers (specs/layouts.py) for sdf, pdb, gro, mol2, xyz, extxyz, "
               "poscar (direct/cartesian, selective dynamics, scale factor), chgcar, locpot, cube, charmm crd, fcidump, wfn (contracted shells, "
-              "function types in standard / rotated / alphabetical / swapped order); every "
+              "function types in standard / rotated / alphabetical / swapped order), wfx (same primitive model; nuclear charges, "
+              "energies, virials, gradient rows identified by nuclear name), fchk (s/sp/d shells, restricted/unrestricted orbitals, "
+              "densities, six charge kinds, gradient, Hessian, moments, polarizability, frozen atoms, run types; Opt/IRC "
+              "trajectories through load_many), molden and molekel (units, 5D flags before/after [GTO], orbital blocks of "
+              "more than five columns, restricted/unrestricted; norm gate open), mwfn (s, p, 6d/5d shells, all orbitals), gaussian input (link0/route/title "
+              "lines), gaussian log integral dumps (blocks of five columns; nbasis 1, 5, 6, 11; two-electron integrals); every "
               "numeric field symbolic (token of the printed width; one field per record may fill its column), symbolic "
               "bond partners / CONECT serials in their legal range; sizes 1-3 atoms plus boundary sizes; optional "
               "sections absent/present (gro velocities, triclinic box, time; pdb CONECT; cube ragged last lines)",
         thorough="more sizes; width budget 2"),
-    outside=["fchk, gaussianlog, gaussianinput, gamess, orcalog, qchemlog, cp2klog, mwfn, wfn, wfx, molden, molekel, "
-             "json_qcschema: no independent layout writer in this check (wavefunction readers are exercised through "
-             "the C01 round trips)", "float32 storage precision of gro/charmm positions", "Fortran D exponents"],
+    outside=["gamess, orcalog, qchemlog, cp2klog, json_qcschema: no independent layout writer in this check (free-form "
+             "program output; their unit handling is checked on the tokenised corpus in C04)", "float32 storage precision of gro/charmm positions", "Fortran D exponents"],
     assumptions=["the layout tables are transcriptions of the public format descriptions cited in specs/layouts.py",
                  "placeholder tokens; in-memory files; exact reals"],
     explanation="symbolic execution of the real readers on token files written by independent layout writers",
@@ -207,6 +211,184 @@ def h_gro(ctx, natom=2, nframes=1, vel=True, triclinic=True, time=True, policy="
                 _cmp(ctx, "time", d.extra.get("time"), fr["time"] * L.PICOSECOND, cls, tol=("rel", 1e-4))
             _cmp(ctx, "attypes", list(d.atffparams["attypes"]), [a[2] for a in fr["atoms"]], cls)
             _cmp(ctx, "resnums", np.asarray(d.atffparams["resnums"]), np.array([a[0] for a in fr["atoms"]]), cls)
+
+
+# ------------------------------------------------------------------------------------------ FCHK
+def _tri_dense(ctx, vals, n):
+    d = np.zeros((n, n), dtype=object if ctx.mode == "sym" else float)
+    k = 0
+    for i in range(n):
+        for j in range(i + 1):
+            d[i, j] = d[j, i] = vals[k]
+            k += 1
+    return d
+
+
+def h_fchk(ctx, basis="sp", spin="restricted", props=True, twin=False):
+    """Single-point FCHK file in the published record layout: every stored quantity lands where the layout says."""
+    import iodata.api as api
+    mods = rt._fmt_modules("fchk")
+    with stubbed(*mods):
+        atoms = []
+        for i, z in enumerate((8, 1)):
+            x, y, zz = (ctx.real(f"x{i}_{k}", lo=-90, hi=90, default=0.7 * k - i) for k in range(3))
+            atoms.append((z, ctx.real(f"q{i}", lo=0, hi=120, default=float(z)), x, y, zz, ctx.real(f"w{i}", lo=1, hi=300, default=2.0 * z)))
+        e = lambda n, d: ctx.real(n, lo=0.01, hi=9e4, default=d)       # noqa: E731
+        c = lambda n, d: ctx.real(n, lo=-9, hi=9, default=d)           # noqa: E731
+        shells = [(0, 1, [e("e0a", 5.0), e("e0b", 1.2)], [c("c0a", 0.4), c("c0b", 0.7)], None)]
+        nb = 1
+        if basis == "sp":
+            shells.append((-1, 2, [e("e1", 0.8)], [c("c1s", 0.9)], [c("c1p", 0.3)]))
+            nb += 4
+        elif basis == "dcart":
+            shells.append((2, 2, [e("e1", 0.8)], [c("c1", 1.0)], None))
+            nb += 6
+        elif basis == "dpure":
+            shells.append((-2, 2, [e("e1", 0.8)], [c("c1", 1.0)], None))
+            nb += 5
+        norb = 2
+        ea = [ctx.real(f"ea{i}", lo=-900, hi=900, default=-1.0 + i) for i in range(norb)]
+        ca = [[ctx.real(f"ca{i}_{m}", lo=-9, hi=9, default=0.1 * (m + 1) - 0.3 * i) for m in range(nb)] for i in range(norb)]
+        m = dict(title="independent fchk", command=ctx.choice(["SP", "Freq", "FOpt", "Scan", "Force"], label="command"), lot="RB3LYP",
+                 basis="6-31G(d)", atoms=atoms, shells=shells, nbasis=nb, alpha=(ea, ca), nalpha=1, nbeta=1,
+                 energy=ctx.real("etot", lo=-9e4, hi=0, default=-75.5))
+        if spin == "unrestricted":
+            m["nalpha"], m["nbeta"] = 2, 1
+            eb = [ctx.real(f"eb{i}", lo=-900, hi=900, default=-0.8 + i) for i in range(norb)]
+            cb = [[ctx.real(f"cb{i}_{k}", lo=-9, hi=9, default=0.2 * (k + 1) - 0.1 * i) for k in range(nb)] for i in range(norb)]
+            m["beta"] = (eb, cb)
+        ntri = nb * (nb + 1) // 2
+        fields = {}
+        if props:
+            tri = lambda name, n: [ctx.real(f"{name}{k}", lo=-99, hi=99, default=0.01 * k - 0.2) for k in range(n)]     # noqa: E731
+            fields["Total SCF Density"] = tri("dm", ntri)
+            fields["Spin SCF Density"] = tri("sdm", ntri)
+            fields["Total MP2 Density"] = tri("pdm", ntri)
+            fields["Spin MP2 Density"] = tri("psdm", ntri)
+            for lab in ("Mulliken Charges", "ESP Charges", "NPA Charges", "MBS Charges", "Type 6 Charges", "Type 7 Charges"):
+                fields[lab] = tri("chg" + "".join(ch for ch in lab.split(" Charges")[0].lower() if ch.isalnum()), 2)
+            fields["Cartesian Gradient"] = tri("g", 6)
+            fields["Cartesian Force Constants"] = tri("h", 21)
+            fields["Dipole Moment"] = tri("mu", 3)
+            fields["Quadrupole Moment"] = tri("qd", 6)
+            fields["Polarizability"] = tri("al", 6)
+            m["frozen"] = [0, -2]
+        m["fields"] = fields
+        text = L.write_fchk(m)
+        path = ctx.tmp_path("m.fchk")
+        ctx.write_text(path, text)
+        d, err = _load(ctx, api, path)
+        cls = f"fchk,{basis},{spin},props={props}"
+        ctx.oblige("well-formed-file-loads", err is None, cls=cls, detail=f"{err} / {getattr(err, '__cause__', None)!r}")
+        if err is not None:
+            return
+        _cmp(ctx, "atnums", np.asarray(d.atnums), np.array([8, 1]), cls)
+        _cmp(ctx, "atcorenums", d.atcorenums, _arr(ctx, [a[1] for a in atoms]), cls)
+        _cmp(ctx, "atcoords-in-bohr", d.atcoords, _arr(ctx, [list(a[2:5]) for a in atoms]), cls)
+        _cmp(ctx, "atmasses-amu-to-au", d.atmasses, _arr(ctx, [a[5] * L.AMU for a in atoms]), cls)
+        _cmp(ctx, "energy", d.energy, m["energy"], cls)
+        _cmp(ctx, "title", d.title, "independent fchk", cls)
+        _cmp(ctx, "lot", d.lot, "rb3lyp", cls)
+        _cmp(ctx, "obasis_name", d.obasis_name, "6-31g(d)", cls)
+        want_rt = {"SP": "energy", "Freq": "freq", "FOpt": "opt", "Scan": "scan", "Force": None}[m["command"]]
+        ctx.oblige("run_type", d.run_type == want_rt, cls=f"{cls},{m['command']}", detail=f"{d.run_type!r}")
+        # basis set
+        ctx.oblige("number-of-shells", len(d.obasis.shells) == len(shells), cls=cls)
+        for k, (sh, (typ, at, exps, cos, pcs)) in enumerate(zip(d.obasis.shells, shells)):
+            ctx.oblige("shell-centre", sh.icenter == at - 1, cls=cls, detail=f"shell {k}")
+            want_l, want_k = ([0, 1], ["c", "c"]) if typ == -1 else ([abs(typ)], ["p" if typ < 0 else "c"])
+            ctx.oblige("shell-type", list(sh.angmoms) == want_l and list(sh.kinds) == want_k, cls=cls, detail=f"shell {k}: {sh.angmoms} {sh.kinds}")
+            _cmp(ctx, "shell-exponents", sh.exponents, _arr(ctx, exps), cls)
+            wc = [[a, b] for a, b in zip(cos, pcs)] if typ == -1 else [[a] for a in cos]
+            _cmp(ctx, "shell-coefficients", sh.coeffs, _arr(ctx, wc), cls)
+        # orbitals
+        ctx.oblige("orbital-kind", d.mo.kind == spin, cls=cls, detail=d.mo.kind)
+        if spin == "restricted":
+            _cmp(ctx, "mo-coefficients", d.mo.coeffs, _arr(ctx, [[ca[i][k] for i in range(norb)] for k in range(nb)]), cls)
+            _cmp(ctx, "mo-energies", d.mo.energies, _arr(ctx, ea), cls)
+            _cmp(ctx, "mo-occupations", d.mo.occs, np.array([2.0, 0.0]), cls)
+        else:
+            cb_, eb_ = m["beta"][1], m["beta"][0]
+            _cmp(ctx, "mo-coefficients", d.mo.coeffs,
+                 _arr(ctx, [[ca[i][k] for i in range(norb)] + [cb_[i][k] for i in range(norb)] for k in range(nb)]), cls)
+            _cmp(ctx, "mo-energies", d.mo.energies, _arr(ctx, ea + eb_), cls)
+            _cmp(ctx, "mo-occupations", d.mo.occs, np.array([1.0, 1.0, 1.0, 0.0]), cls)
+        if not props:
+            ctx.oblige("no-properties-invented", not d.one_rdms and not d.atcharges and not d.moments and d.atgradient is None
+                       and d.athessian is None and d.atfrozen is None, cls=cls)
+            return
+        for key, lab in (("scf", "Total SCF Density"), ("scf_spin", "Spin SCF Density"), ("post_scf_ao", "Total MP2 Density"),
+                         ("post_scf_spin_ao", "Spin MP2 Density")):
+            _cmp(ctx, f"one_rdms.{key}", d.one_rdms.get(key), _tri_dense(ctx, fields[lab], nb), cls)
+        for key, lab in (("mulliken", "Mulliken Charges"), ("esp", "ESP Charges"), ("npa", "NPA Charges"), ("mbs", "MBS Charges"),
+                         ("hirshfeld", "Type 6 Charges"), ("cm5", "Type 7 Charges")):
+            _cmp(ctx, f"atcharges.{key}", d.atcharges.get(key), _arr(ctx, fields[lab]), cls)
+        _cmp(ctx, "atgradient", d.atgradient, _arr(ctx, [fields["Cartesian Gradient"][:3], fields["Cartesian Gradient"][3:]]), cls)
+        _cmp(ctx, "athessian", d.athessian, _tri_dense(ctx, fields["Cartesian Force Constants"], 6), cls)
+        _cmp(ctx, "dipole", d.moments.get((1, "c")), _arr(ctx, fields["Dipole Moment"]), cls)
+        xx, yy, zz, xy, xz, yz = fields["Quadrupole Moment"]
+        _cmp(ctx, "quadrupole-alphabetical", d.moments.get((2, "c")), _arr(ctx, [xx, xy, xz, yy, yz, zz] if not twin else [xx, yy, zz, xy, xz, yz]), cls)
+        _cmp(ctx, "polarizability", d.extra.get("polarizability_tensor"), _tri_dense(ctx, fields["Polarizability"], 3), cls)
+        ctx.oblige("atfrozen", d.atfrozen is not None and list(d.atfrozen) == [False, True], cls=cls, detail=repr(d.atfrozen))
+
+
+def h_fchk_trajectory(ctx, kind="Opt", npoint=2):
+    """Optimisation / IRC trajectory in an FCHK file: one object per step, in file order."""
+    import iodata.api as api
+    mods = rt._fmt_modules("fchk")
+    with stubbed(*mods):
+        atoms = [(8, 8.0), (1, 1.0)]
+        nsteps = [2, 1, 3][:npoint]
+        points = []
+        for ip, n in enumerate(nsteps):
+            steps = []
+            for st in range(n):
+                tag = f"p{ip}s{st}"
+                steps.append((ctx.real(tag + "E", lo=-9e4, hi=0, default=-75.0 - 0.1 * st), ctx.real(tag + "r", lo=-9, hi=9, default=0.1 * st),
+                              [[ctx.real(f"{tag}x{i}_{k}", lo=-90, hi=90, default=0.5 * k - i + 0.01 * st) for k in range(3)] for i in range(2)],
+                              [[ctx.real(f"{tag}g{i}_{k}", lo=-9, hi=9, default=0.05 * k - 0.02 * i) for k in range(3)] for i in range(2)]))
+            points.append(steps)
+        text = L.write_fchk_trajectory(dict(title="trajectory", kind=kind, atoms=atoms, points=points))
+        path = ctx.tmp_path("t.fchk")
+        ctx.write_text(path, text)
+        ds, err = _load(ctx, api, path, many=True)
+        cls = f"fchk-trajectory,{kind},points={npoint}"
+        ctx.oblige("well-formed-file-loads", err is None, cls=cls, detail=f"{err} / {getattr(err, '__cause__', None)!r}")
+        if err is not None:
+            return
+        flat = [(ip, ist, st) for ip, steps in enumerate(points) for ist, st in enumerate(steps)]
+        ctx.oblige("one-object-per-step", len(ds) == len(flat), cls=cls, detail=f"{len(ds)} vs {len(flat)}")
+        for d, (ip, ist, st) in zip(ds, flat):
+            _cmp(ctx, "energy", d.energy, st[0], cls)
+            _cmp(ctx, "atcoords", d.atcoords, _arr(ctx, st[2]), cls)
+            _cmp(ctx, "atgradient", d.atgradient, _arr(ctx, st[3]), cls)
+            _cmp(ctx, "atnums", np.asarray(d.atnums), np.array([8, 1]), cls)
+            ctx.oblige("step-bookkeeping", d.extra.get("ipoint") == ip and d.extra.get("istep") == ist and
+                       d.extra.get("npoint") == len(points) and d.extra.get("nstep") == len(points[ip]), cls=cls,
+                       detail=str({k: d.extra.get(k) for k in ("ipoint", "istep", "npoint", "nstep")}))
+            if kind == "IRC":
+                _cmp(ctx, "reaction-coordinate", d.extra.get("reaction_coordinate"), st[1], cls)
+
+
+# ------------------------------------------------------------------------------------------ Gaussian input
+def h_gaussian_input(ctx, natom=2, nlink0=1, nroute=1, ntitle=1):
+    import iodata.api as api
+    mods = rt._fmt_modules("gaussianinput")
+    with stubbed(*mods):
+        zs = [8, 1, 17, 2][:natom]
+        atoms = [(z, *(ctx.real(f"x{i}_{k}", lo=-900, hi=900, default=0.9 * k - i) for k in range(3))) for i, z in enumerate(zs)]
+        m = dict(link0=["%chk=water.chk", "%mem=2GB"][:nlink0], route=["# HF/6-31G(d) opt", "  scf=tight"][:nroute],
+                 title=["water molecule", "second title line"][:ntitle], charge=0, mult=1, atoms=atoms)
+        path = ctx.tmp_path("m.com")
+        ctx.write_text(path, L.write_gaussian_input(m))
+        d, err = _load(ctx, api, path)
+        cls = f"gaussianinput,n={natom},link0={nlink0},route={nroute},title={ntitle}"
+        ctx.oblige("well-formed-file-loads", err is None, cls=cls, detail=f"{err} / {getattr(err, '__cause__', None)!r}")
+        if err is not None:
+            return
+        _cmp(ctx, "atnums", np.asarray(d.atnums), np.array(zs), cls)
+        _cmp(ctx, "atcoords-angstrom-to-bohr", d.atcoords, _arr(ctx, [[a[1] * L.ANGSTROM, a[2] * L.ANGSTROM, a[3] * L.ANGSTROM] for a in atoms]), cls)
+        _cmp(ctx, "title", d.title, " ".join(m["title"]), cls)
 
 
 # ------------------------------------------------------------------------------------------ MOL2
@@ -521,6 +703,273 @@ def h_wfn(ctx, order="standard-p", nprim=2, twin=False):
             _cmp(ctx, "orbital-energy", d.mo.energies[i], mos[i][1], cls, tol=1e-6)
 
 
+def h_wfx(ctx, order="standard-p", nprim=2, spin="restricted", extras=True):
+    """WFX reader: coefficients stay with their primitives; nuclei, charges, energies, gradient rows stay with their atoms."""
+    import iodata.api as api
+    from specs import basisfun as BF
+    mods = rt._fmt_modules("wfx")
+    with stubbed(*mods):
+        types = WFN_ORDERS[order]
+        exps_s = [5.033151, 1.169596][:nprim]
+        exps_x = [12.5, 0.3713, 2.9][:nprim]
+        prims = [(1, 1, e) for e in exps_s] + [(2, t, e) for t in types for e in exps_x]
+        nmo = 2 if spin == "restricted" else 3
+        spins = ["Alpha and Beta"] * 2 if spin == "restricted" else ["Alpha", "Alpha", "Beta"]
+        occs = [2.0, 2.0] if spin == "restricted" else [1.0, 1.0, 1.0]
+        mos = []
+        for i in range(nmo):
+            co = [ctx.real(f"c{i}_{k}", lo=-9, hi=9, default=0.1 * (k + 1) * (1 if (k + i) % 2 else -1)) for k in range(len(prims))]
+            mos.append((occs[i], ctx.real(f"e{i}", lo=-90, hi=90, default=-1.0 + i), spins[i], co))
+        atoms = [("O1", 8, ctx.real("q0", lo=0, hi=99, default=8.0), *(ctx.real(f"x0_{k}", lo=-90, hi=90, default=0.1 * k) for k in range(3))),
+                 ("H2", 1, ctx.real("q1", lo=0, hi=99, default=1.0), *(ctx.real(f"x1_{k}", lo=-90, hi=90, default=1.1 - 0.4 * k) for k in range(3)))]
+        m = dict(title="wfx layout", atoms=atoms, prims=prims, mos=mos, energy=ctx.real("etot", lo=-9e4, hi=0, default=-75.5),
+                 virial=ctx.real("vir", lo=1, hi=3, default=2.0001), net_charge=0.0, nelec=4 if spin == "restricted" else 3,
+                 nalpha=2, nbeta=2 if spin == "restricted" else 1)
+        if extras:
+            m.update(mult=1 if spin == "restricted" else 2, model="Restricted HF", ncore=2,
+                     nuc_virial=ctx.real("nv", lo=-9, hi=9, default=0.3), full_virial=ctx.real("fv", lo=1, hi=3, default=2.002),
+                     # gradient rows listed in reverse atom order: they are identified by the nuclear name
+                     gradient=[("H2", *(ctx.real(f"g1_{k}", lo=-9, hi=9, default=0.02 * k) for k in range(3))),
+                               ("O1", *(ctx.real(f"g0_{k}", lo=-9, hi=9, default=-0.03 * k) for k in range(3)))])
+        path = ctx.tmp_path("m.wfx")
+        ctx.write_text(path, L.write_wfx(m))
+        d, err = _load(ctx, api, path)
+        cls = f"wfx,{order},nprim={nprim},{spin},extras={extras}"
+        ctx.oblige("well-formed-file-loads", err is None, cls=cls, detail=f"{err} / {getattr(err, '__cause__', None)!r}")
+        if err is not None:
+            return
+        _cmp(ctx, "atnums", np.asarray(d.atnums), np.array([8, 1]), cls)
+        _cmp(ctx, "atcorenums", d.atcorenums, _arr(ctx, [a[2] for a in atoms]), cls)
+        _cmp(ctx, "atcoords", d.atcoords, _arr(ctx, [list(a[3:6]) for a in atoms]), cls)
+        _cmp(ctx, "energy", d.energy, m["energy"], cls)
+        _cmp(ctx, "virial_ratio", d.extra.get("virial_ratio"), m["virial"], cls)
+        _cmp(ctx, "title", d.title, "wfx layout", cls)
+        if extras:
+            _cmp(ctx, "atgradient-rows-by-nuclear-name", d.atgradient, _arr(ctx, [list(m["gradient"][1][1:]), list(m["gradient"][0][1:])]), cls)
+            _cmp(ctx, "nuc_viral", d.extra.get("nuc_viral"), m["nuc_virial"], cls)
+            _cmp(ctx, "full_virial_ratio", d.extra.get("full_virial_ratio"), m["full_virial"], cls)
+            ctx.oblige("integer-extras", d.extra.get("num_core_electrons") == 2 and d.extra.get("spin_multi") == m["mult"]
+                       and d.extra.get("model_name") == "Restricted HF" and d.extra.get("keywords") == "GTO", cls=cls)
+        ctx.oblige("orbital-kind", d.mo.kind == spin, cls=cls, detail=d.mo.kind)
+        _cmp(ctx, "occupations", d.mo.occs, np.array(occs), cls)
+        funcs = BF.basis_functions(BF.shells_of(d.obasis), d.obasis.conventions, normalized_prims=False)
+        ctx.oblige("orbital-count", d.mo.coeffs.shape[1] == nmo, cls=cls)
+        for i in range(nmo):
+            got = BF.combine(list(d.mo.coeffs[:, i]), funcs)
+            want = {}
+            for k, (c, t, e) in enumerate(prims):
+                pw = L.WFN_TYPES[t]
+                BF.add_to(want, (c - 1, BF.akey(e), "c", sum(pw), pw), mos[i][3][k])
+            parts = []
+            ok = True
+            for key in sorted(set(got) | set(want), key=repr):
+                r = ctx.approx(got.get(key, 0.0), want.get(key, 0.0), 1e-6, atol=1e-9)
+                if r is False:
+                    ok = False
+                    break
+                if r is not True:
+                    parts.append(r)
+            ctx.oblige("coefficient-stays-with-its-primitive", (And(*parts) if parts else True) if ok else False, cls=cls,
+                       detail=f"orbital {i}")
+            _cmp(ctx, "orbital-energy", d.mo.energies[i], mos[i][1], cls, tol=1e-6)
+
+
+def h_molden_layout(ctx, fmt="molden", dkind="c", unit="AU", spin="restricted", pure_first=False, norb=2):
+    """Molden / Molekel files in the published layout: nuclei, units, every MO coefficient on its documented function."""
+    import iodata.api as api
+    import iodata.formats.molden as molden
+    from specs import basisfun as BF
+    from specs.conventions_ref import DOCUMENTED
+    mods = rt._fmt_modules(fmt)
+    # the vendor-detection cascade is the subject of C05: the norm gate is opened so that arbitrary coefficients load
+    gate = molden._is_normalized_properly
+    molden._is_normalized_properly = lambda *a, **k: True
+    try:
+        with stubbed(*mods):
+            zs = [8, 1]
+            xyz = [[ctx.real(f"x{i}_{k}", lo=-90, hi=90, default=0.4 * k - 0.9 * i) for k in range(3)] for i in range(2)]
+            dlab, nd = ("d", 6 if dkind == "c" else 5)
+            shells = [(0, "s", 1, [(5.033151, 0.4), (1.169596, 0.7)]), (0, "p", 3, [(0.3803890, 1.0)]), (1, dlab, nd, [(1.9, 1.0)])]
+            nb = 1 + 3 + nd
+            n_a = norb
+            ea = [ctx.real(f"ea{i}", lo=-900, hi=900, default=-1.0 + i) for i in range(n_a)]
+            ca = [[ctx.real(f"ca{i}_{k}", lo=-9, hi=9, default=0.1 * (k + 1) - 0.3 * i) for k in range(nb)] for i in range(n_a)]
+            if spin == "restricted":
+                occa = [2.0] * 5 + [0.0] * (n_a - 5) if n_a >= 5 else [2.0] * n_a
+                nel = int(sum(occa))
+                beta = None
+            else:
+                occa = [1.0] * n_a
+                eb = [ctx.real(f"eb{i}", lo=-900, hi=900, default=-0.7 + i) for i in range(n_a - 1)]
+                cb = [[ctx.real(f"cb{i}_{k}", lo=-9, hi=9, default=0.05 * (k + 2) + 0.2 * i) for k in range(nb)] for i in range(n_a - 1)]
+                occb = [1.0] * (n_a - 1)
+                nel = int(sum(occa) + sum(occb))
+                beta = (eb, cb, occb)
+            charge = 9 - nel
+            if fmt == "molden":
+                atoms = [(z, *xyz[i]) for i, z in enumerate(zs)]
+                mos = [("A1", ea[i], "Alpha", occa[i], ca[i]) for i in range(n_a)]
+                if beta:
+                    mos += [("A1", beta[0][i], "Beta", beta[2][i], beta[1][i]) for i in range(len(beta[0]))]
+                text = L.write_molden_full(dict(title="layout", unit=unit, atoms=atoms, pure="[5D]" if dkind == "p" else "", pure_first=pure_first,
+                                                shells=[(ic, lab, pr) for ic, lab, _n, pr in shells], mos=mos))
+                path = ctx.tmp_path("m.molden")
+                factor = 1.0 if unit.strip("()").upper() == "AU" else L.ANGSTROM
+            else:
+                qs = [ctx.real(f"q{i}", lo=-9, hi=9, default=0.3 - 0.6 * i) for i in range(2)]
+                text = L.write_mkl(dict(charge=charge, mult=1 if spin == "restricted" else 2, atoms=[(z, *xyz[i]) for i, z in enumerate(zs)],
+                                        charges=qs, shells=[(ic, lab.upper(), n, pr) for ic, lab, n, pr in shells],
+                                        alpha=(ea, ca, occa), beta=beta))
+                path = ctx.tmp_path("m.mkl")
+                factor = L.ANGSTROM
+            ctx.write_text(path, text)
+            d, err = _load(ctx, api, path)
+            cls = f"{fmt},d={dkind},{unit},{spin},norb={norb}"
+            ctx.oblige("well-formed-file-loads", err is None, cls=cls, detail=f"{err} / {getattr(err, '__cause__', None)!r}")
+            if err is not None:
+                return
+            _cmp(ctx, "atnums", np.asarray(d.atnums), np.array(zs), cls)
+            _cmp(ctx, "atcoords-in-bohr", d.atcoords, _arr(ctx, [[v * factor for v in row] for row in xyz]), cls)
+            if fmt == "molekel":
+                _cmp(ctx, "mulliken-charges", d.atcharges.get("mulliken") if d.atcharges else None, _arr(ctx, qs), cls)
+                ctx.oblige("charge-and-multiplicity", abs(float(d.charge) - charge) < 1e-9 and abs(float(d.spinpol) - (0 if spin == "restricted" else 1)) < 1e-9,
+                           cls=cls, detail=f"{d.charge} {d.spinpol}")
+            else:
+                _cmp(ctx, "title", d.title, "layout", cls)
+            ctx.oblige("orbital-kind", d.mo.kind == spin, cls=cls, detail=d.mo.kind)
+            true_shells = [dict(icenter=ic, angmoms=[{"s": 0, "p": 1, "d": 2}[lab]], kinds=["p" if (lab == "d" and dkind == "p") else "c"],
+                                exponents=[e for e, _ in pr], coeffs=[[c] for _, c in pr]) for ic, lab, _n, pr in shells]
+            tfuncs = BF.basis_functions(true_shells, DOCUMENTED["molden"])
+            funcs = BF.basis_functions(BF.shells_of(d.obasis), d.obasis.conventions)
+            chans = [("alpha", d.mo.coeffsa, d.mo.energiesa, d.mo.occsa, ca, ea, occa)]
+            if beta:
+                chans.append(("beta", d.mo.coeffsb, d.mo.energiesb, d.mo.occsb, beta[1], beta[0], beta[2]))
+            for name, co, en, oc, wc, we, wo in chans:
+                ctx.oblige("orbital-count", co.shape[1] == len(wc), cls=cls, detail=f"{name}: {co.shape}")
+                if co.shape[1] != len(wc):
+                    continue
+                for i in range(len(wc)):
+                    got = BF.combine(list(co[:, i]), funcs)
+                    want = BF.combine(list(wc[i]), tfuncs)
+                    parts, ok = [], True
+                    for key in sorted(set(got) | set(want), key=repr):
+                        r = ctx.approx(got.get(key, 0.0), want.get(key, 0.0), 1e-6, atol=1e-9)
+                        if r is False:
+                            ok = False
+                            break
+                        if r is not True:
+                            parts.append(r)
+                    ctx.oblige("coefficient-on-its-documented-function", (And(*parts) if parts else True) if ok else False, cls=cls,
+                               detail=f"{name} orbital {i}")
+                    _cmp(ctx, "orbital-energy", en[i], we[i], cls, tol=1e-6)
+                if spin == "restricted":
+                    _cmp(ctx, "occupations", d.mo.occs, np.array(wo), cls)
+                else:
+                    _cmp(ctx, f"occupations-{name}", oc, np.array(wo), cls)
+    finally:
+        molden._is_normalized_properly = gate
+
+
+def h_gaussian_log(ctx, nbasis=6, eri=True):
+    """Integral dumps of a Gaussian log file: blocks of five columns, lower triangles, chemists' -> physicists' notation."""
+    import iodata.api as api
+    import iodata.formats.gaussianlog as glog
+    mods = rt._fmt_modules("gaussianlog")
+    with stubbed(*mods):
+        mats = {}
+        for key in ("overlap", "kinetic", "potential"):
+            mats[key] = [[ctx.real(f"{key[0]}{i}_{j}", lo=-90, hi=90, default=0.01 * (i + 1) + 0.1 * j) for j in range(i + 1)] for i in range(nbasis)]
+        m = dict(nbasis=nbasis, **mats)
+        quads = []
+        if eri:
+            quads = [(1, 1, 1, 1), (2, 1, 1, 1), (2, 1, 2, 1), (2, 2, 1, 1)][:4 if nbasis > 1 else 1]
+            if nbasis >= 3:
+                quads.append((3, 2, 2, 1))
+            m["eri"] = [(i, j, k, l, ctx.real(f"g{i}{j}{k}{l}", lo=-90, hi=90, default=0.1 * i + 0.01 * j + 0.3 * k - 0.02 * l)) for i, j, k, l in quads]
+        path = ctx.tmp_path("m.log")
+        ctx.write_text(path, L.write_gaussian_log(m))
+        d, err = _load(ctx, api, path)
+        cls = f"gaussianlog,nbasis={nbasis}"
+        ctx.oblige("well-formed-file-loads", err is None, cls=cls, detail=f"{err} / {getattr(err, '__cause__', None)!r}")
+        if err is not None:
+            return
+        for key, name in (("overlap", "olp"), ("kinetic", "kin_ao"), ("potential", "na_ao")):
+            want = np.zeros((nbasis, nbasis), dtype=object if ctx.mode == "sym" else float)
+            for i in range(nbasis):
+                for j in range(i + 1):
+                    want[i, j] = want[j, i] = mats[key][i][j]
+            _cmp(ctx, f"one_ints.{name}", d.one_ints.get(name), want, cls)
+        if eri:
+            want = np.zeros((nbasis,) * 4, dtype=object if ctx.mode == "sym" else float)
+            for i, j, k, l, v in m["eri"]:
+                i, j, k, l = i - 1, j - 1, k - 1, l - 1
+                # (ij|kl) with its eight-fold symmetry, stored as <ik|jl>
+                for a, b, c, e in ((i, j, k, l), (j, i, k, l), (i, j, l, k), (j, i, l, k), (k, l, i, j), (l, k, i, j), (k, l, j, i), (l, k, j, i)):
+                    want[a, c, b, e] = v
+            _cmp(ctx, "two_ints.er_ao-physicists-notation", d.two_ints.get("er_ao"), want, cls)
+
+
+def h_mwfn(ctx, dtype=2, spin="restricted"):
+    """MWFN file in the published layout: nuclei (angstrom), basis, all orbitals with their coefficients."""
+    import iodata.api as api
+    from specs import basisfun as BF
+    from specs.conventions_ref import DOCUMENTED
+    mods = rt._fmt_modules("mwfn")
+    with stubbed(*mods):
+        zs = [8, 1]
+        xyz = [[ctx.real(f"x{i}_{k}", lo=-90, hi=90, default=0.4 * k - 0.9 * i) for k in range(3)] for i in range(2)]
+        qs = [8.0, 1.0]
+        shells = [(0, 1, [5.033151, 1.169596], [0.4, 0.7]), (1, 1, [0.380389], [1.0]), (dtype, 2, [1.9], [1.0])]
+        nb = 1 + 3 + (6 if dtype == 2 else 5)
+        nmo = nb if spin == "restricted" else 2 * nb
+        mos = []
+        for i in range(nmo):
+            typ = 0 if spin == "restricted" else (1 if i < nb else 2)
+            occ = (2.0 if i < 5 else 0.0) if spin == "restricted" else (1.0 if (i % nb) < (5 if i < nb else 4) else 0.0)
+            sym_i = i < 2 or i == nb           # a few orbitals fully symbolic, the rest concrete filler
+            co = [ctx.real(f"c{i}_{k}", lo=-9, hi=9, default=0.1 * (k + 1) - 0.03 * i) if sym_i else 0.01 * (k + 1) - 0.002 * i for k in range(nb)]
+            en = ctx.real(f"e{i}", lo=-900, hi=900, default=-1.0 + 0.1 * i) if sym_i else -1.0 + 0.1 * i
+            mos.append((typ, en, occ, co))
+        m = dict(wfntype=0 if spin == "restricted" else 1, charge=-1.0 if spin == "restricted" else 0.0,
+                 naelec=5.0, nbelec=5.0 if spin == "restricted" else 4.0, energy=ctx.real("etot", lo=-9e4, hi=0, default=-75.5),
+                 virial=ctx.real("vt", lo=1, hi=3, default=2.0017), atoms=[(z, q, *xyz[i]) for i, (z, q) in enumerate(zip(zs, qs))],
+                 nbasis=nb, shells=shells, mos=mos)
+        path = ctx.tmp_path("m.mwfn")
+        ctx.write_text(path, L.write_mwfn(m))
+        d, err = _load(ctx, api, path)
+        cls = f"mwfn,d={dtype},{spin}"
+        ctx.oblige("well-formed-file-loads", err is None, cls=cls, detail=f"{err} / {getattr(err, '__cause__', None)!r}")
+        if err is not None:
+            return
+        _cmp(ctx, "atnums", np.asarray(d.atnums), np.array(zs), cls)
+        _cmp(ctx, "atcorenums", d.atcorenums, np.array(qs), cls)
+        _cmp(ctx, "atcoords-angstrom-to-bohr", d.atcoords, _arr(ctx, [[v * L.ANGSTROM for v in row] for row in xyz]), cls)
+        _cmp(ctx, "energy", d.energy, m["energy"], cls)
+        _cmp(ctx, "full_virial_ratio", d.extra.get("full_virial_ratio"), m["virial"], cls)
+        ctx.oblige("orbital-kind", d.mo.kind == spin, cls=cls, detail=d.mo.kind)
+        ctx.oblige("orbital-count", d.mo.coeffs.shape == (nb, nmo), cls=cls, detail=str(d.mo.coeffs.shape))
+        true_shells = [dict(icenter=c - 1, angmoms=[abs(t)], kinds=["p" if t < 0 else "c"], exponents=list(es), coeffs=[[c_] for c_ in cs])
+                       for t, c, es, cs in shells]
+        tfuncs = BF.basis_functions(true_shells, DOCUMENTED["mwfn"])
+        funcs = BF.basis_functions(BF.shells_of(d.obasis), d.obasis.conventions)
+        for i in range(nmo):
+            if not (i < 2 or i == nb):
+                continue
+            got = BF.combine(list(d.mo.coeffs[:, i]), funcs)
+            want = BF.combine(list(mos[i][3]), tfuncs)
+            parts, ok = [], True
+            for key in sorted(set(got) | set(want), key=repr):
+                r = ctx.approx(got.get(key, 0.0), want.get(key, 0.0), 1e-6, atol=1e-9)
+                if r is False:
+                    ok = False
+                    break
+                if r is not True:
+                    parts.append(r)
+            ctx.oblige("coefficient-on-its-documented-function", (And(*parts) if parts else True) if ok else False, cls=cls, detail=f"orbital {i}")
+            _cmp(ctx, "orbital-energy", d.mo.energies[i], mos[i][1], cls, tol=1e-6)
+        _cmp(ctx, "occupations", d.mo.occs, np.array([mo[2] for mo in mos]), cls)
+
+
 def jobs(tier):
     M = "harness.c03"
     out = []
@@ -551,7 +1000,36 @@ def jobs(tier):
     for order in WFN_ORDERS:
         for nprim in (1, 2):
             out.append(job("C03", f"wfn[{order},nprim={nprim}]", M, "h_wfn", dict(order=order, nprim=nprim), max_validate=2))
+    for order in WFN_ORDERS:
+        out.append(job("C03", f"wfx[{order},restricted]", M, "h_wfx", dict(order=order, nprim=2, spin="restricted", extras=True), max_validate=2))
+    out.append(job("C03", "wfx[standard-p,unrestricted]", M, "h_wfx", dict(order="standard-p", nprim=1, spin="unrestricted", extras=False),
+                   max_validate=2))
+    for fmt in ("molden", "molekel"):
+        for dkind in ("c", "p"):
+            for spin in ("restricted", "unrestricted"):
+                units = ("AU", "Angs", "(AU)", "(Angs)") if fmt == "molden" and dkind == "c" and spin == "restricted" else ("AU",)
+                for unit in units:
+                    out.append(job("C03", f"{fmt}-layout[d={dkind},{unit},{spin}]", M, "h_molden_layout",
+                                   dict(fmt=fmt, dkind=dkind, unit=unit, spin=spin, pure_first=(spin == "restricted"),
+                                        norb=7 if (fmt == "molekel" and spin == "restricted" and dkind == "c") else 2), max_validate=2))
+    for nbasis in (1, 5, 6, 11):
+        out.append(job("C03", f"gaussianlog[nbasis={nbasis}]", M, "h_gaussian_log", dict(nbasis=nbasis, eri=nbasis <= 6), max_validate=2))
+    for dtype in (2, -2):
+        for spin in ("restricted", "unrestricted"):
+            out.append(job("C03", f"mwfn[d={dtype},{spin}]", M, "h_mwfn", dict(dtype=dtype, spin=spin), max_validate=2))
     out.append(job("C03", "wfn[twin]", M, "h_wfn", dict(order="standard-p", nprim=1, twin=True), expect="cex", max_validate=0))
+    for basis in ("sp", "dcart", "dpure"):
+        for spin in ("restricted", "unrestricted"):
+            out.append(job("C03", f"fchk[{basis},{spin}]", M, "h_fchk", dict(basis=basis, spin=spin, props=basis == "sp"),
+                           budget_s=300, max_validate=3))
+    out.append(job("C03", "fchk[twin]", M, "h_fchk", dict(basis="sp", spin="restricted", props=True, twin=True), expect="cex", max_validate=0))
+    for kind in ("Opt", "IRC"):
+        for npoint in (1, 2) + ((3,) if tier == "thorough" else ()):
+            out.append(job("C03", f"fchk-trajectory[{kind},points={npoint}]", M, "h_fchk_trajectory", dict(kind=kind, npoint=npoint),
+                           max_validate=3))
+    for natom, nl, nr, nt in ((1, 0, 1, 1), (2, 1, 1, 1), (3, 2, 2, 2)):
+        out.append(job("C03", f"gaussianinput[n={natom},link0={nl},route={nr},title={nt}]", M, "h_gaussian_input",
+                       dict(natom=natom, nlink0=nl, nroute=nr, ntitle=nt), max_validate=3))
     for n in (1, 2):
         out.append(job("C03", f"fcidump[n={n}]", M, "h_fcidump", dict(n=n), max_validate=3))
     return out
